@@ -223,7 +223,10 @@ func (t *Tokenizer) tokenizeBuffer(buf []byte, last bool) error {
 			}
 		case numComma:
 			t.handleNum()
-			if 0 < len(t.starts) && t.starts[len(t.starts)-1] == '{' {
+			if len(t.starts) == 0 {
+				return t.newError(off, "unexpected comma")
+			}
+			if t.starts[len(t.starts)-1] == '{' {
 				t.mode = keyMap
 			} else {
 				t.mode = commaMap
